@@ -38,7 +38,7 @@ theorem boxed_generate_spec (esz ealign : Nat) (g : Nat → Id) (n : Nat) :
     rets (Heap.boxedGenerate esz ealign n (fun i => some (g i)) true).etrace = (List.range n).map (fun i => (i, g i)) := by
   obtain ⟨h1, h2, _⟩ := fill_gen g n 0 []
   unfold Heap.boxedGenerate
-  simp only [Bridge.Heap.boxedWriteBeforeCount_eq, Bool.not_true, Bool.and_false, Bool.false_eq_true, if_false]
+  simp only [Bridge.Heap.boxedWriteBeforeCount_eq, GA.Bridge.HeapGen.boxedDanglingAligned_eq, Bool.not_true, Bool.and_false, Bool.false_and, Bool.false_eq_true, if_false]
   revert h1 h2
   cases fillLoop true true (genSrc fun i => some (g i)) n 0 [] with
   | mk tr r =>
